@@ -29,6 +29,8 @@ class IndexedContainer(DataContainerBase):
     # -- private methods
 
     def _calculate_total_error(self):
+        # bring lazily computed values (parametric models, histograms) and the error references up to date first
+        _data = self.data
         _sz = self.size
         _tmp_cov_mat = np.zeros((_sz, _sz))
         for _err_dict in self._error_dicts.values():
@@ -36,7 +38,7 @@ class IndexedContainer(DataContainerBase):
                 continue
             _tmp_cov_mat += _err_dict["err"].cov_mat
 
-        _total_err = MatrixGaussianError(_tmp_cov_mat, "cov", relative=False, reference=self.data)
+        _total_err = MatrixGaussianError(_tmp_cov_mat, "cov", relative=False, reference=_data)
         self._total_error = _total_err
 
     def _clear_total_error_cache(self):
